@@ -37,11 +37,20 @@ class FaultyStream(io.BytesIO):
         return super().read(n)
 
 
+def strip_union_buffers(pv):
+    """Union values are compared by their members: the retained raw buffer may be shorter when only the union's tail padding is missing."""
+    if isinstance(pv, tuple) and len(pv) == 3 and pv[0] == "union":
+        return ("union", strip_union_buffers(pv[2]))
+    if isinstance(pv, (list, tuple)):
+        return type(pv)(strip_union_buffers(x) for x in pv)
+    return pv
+
+
 def value_key(cs, T, r):
     if r[0] != "ok":
         return ("err", type(r[1]).__name__)
     try:
-        return ("ok", structs.py_value(r[1], T), r[2])
+        return ("ok", strip_union_buffers(structs.py_value(r[1], T)), r[2])
     except structs.HasNaN:
         return ("nan",)
 
@@ -106,7 +115,7 @@ def check(run: Run) -> None:
                 try:
                     with structs.time_limit(2.0):
                         v = T._read(st)
-                    key = ("ok", structs.py_value(v, T))
+                    key = ("ok", strip_union_buffers(structs.py_value(v, T)))
                 except structs.HasNaN:
                     continue
                 except (Exception, structs.Hang) as e:  # noqa: BLE001
